@@ -31,7 +31,7 @@ ASSUMPTIONS = [
 REQUIRED_PROBES = ["sample_list_reused", "none_grid_after_foreign_write", "dict_other_zone", "numeric_df_second_grid", "fix_dict_reuse",
                    "setup_after_failed_split", "inner_asset_after_structured", "serialise_after_chp_setup"]
 
-JUDGED = ("a.setup", "P.setup", "P.split", "P.samples", "g.v2g", "g.p2g")
+JUDGED = ("a.setup", "P.setup", "P.split", "P.samples", "g.v2g", "g.p2g", "slp")
 FRESH_PROCESS = True   # every run in a forked child of a parent that never executes EAO code (see control calls)
 
 # --------------------------------------------------------------------------- world + plan generation
@@ -294,6 +294,9 @@ def gen_scripts(rng, world, ctx):
                     else:
                         st.append({"op": "P.split", "obj": P, "grid": g2, "prices": p3,
                                    "interval": rng.choice(["d", "12h", "8h"]), "fix": {"id": fid}})
+                    if rng.random() < 0.5:
+                        # ... and once more where it was first used
+                        st.append({"op": "P.setup", "obj": P, "grid": g, "prices": p2, "cast": False, "fix": {"id": fid}})
         r = rng.random()
         if r < 0.35:
             p2 = _p(rng, ctx, g, alt=1)
@@ -404,6 +407,10 @@ def gen_scripts(rng, world, ctx):
         st = [{"op": "P.setup", "obj": P, "grid": g, "prices": p, "cast": False},
               {"op": "slp", "obj": P, "grid": g, "start_future": sf,
                "prices": [ctx["prices"][g][1]] * rng.choice([1, 2])}]
+        if len(grids) > 1 and rng.random() < 0.4:
+            # the portfolio is used on another grid before the kept problem is extended
+            g2 = rng.choice([x for x in grids if x != g])
+            st.insert(1, {"op": "P.setup", "obj": P, "grid": g2, "prices": _p(rng, ctx, g2), "cast": False})
         if rng.random() < 0.7:
             st.append({"op": "P.setup", "obj": P, "grid": None, "prices": p, "cast": False})
         if rng.random() < 0.4:
@@ -637,6 +644,7 @@ class Exec:
         self.attr_updates = {}    # asset id -> (attribute, value) the user assigned to the live object so far
         self.M = Model(self.w)
         self.last = {}      # object id -> dict(op, res, grid, prices_obj)
+        self.last_on_grid = {}   # (portfolio id, grid id) -> last plain problem built there (what a user keeps to extend it later)
         self.fixes = {}     # fix id -> dict(sys=<dict obj>, I=<tagged>, x=<array>)
         self.lists = {}     # list id -> the caller's list of price samples (kept and reused by the simulated user)
         self.lists_used = set()
@@ -933,6 +941,8 @@ class Exec:
                     M.fix_used.setdefault(st["fix"]["id"], set()).add(gid)
             if ok and not st.get("costs_only"):
                 self.last[st["obj"]] = {"op": s.val, "res": None, "grid": gid, "prices": st["prices"], "cast": st.get("cast")}
+                if op == "P.setup" and not st.get("fix") and not st.get("skip_nodes"):
+                    self.last_on_grid[(st["obj"], gid)] = s.val
             if not ok:
                 self.count_fault_from_exc(s.exc)
         elif op == "P.split":
@@ -1095,21 +1105,34 @@ class Exec:
                         M.failed_split.add(a)
                 return
             elif op == "slp":
-                rec = self.last.get(st["obj"])
-                if rec is None or rec["op"] is None or rec["grid"] != st["grid"] or not hasattr(rec["op"], "A") or rec["op"].A is None:
+                gid = st["grid"]
+                op0 = self.last_on_grid.get((st["obj"], gid))
+                if op0 is None or not hasattr(op0, "A") or op0.A is None:
                     self.stats["noop_steps"] += 1
                     self.stats["calls"] -= 1
                     return
-                gid = st["grid"]
+                rec_last = self.last.get(st["obj"])
+                if rec_last is not None and rec_last.get("grid") != gid:
+                    self.probe("slp_after_setup_on_other_grid")
+                # make_slp builds a problem too (from a problem, the portfolio, the grid and price samples): judged.  The
+                # start problem is data; the same data is handed to the live portfolio and to a brand-new one.
+                data = copy.deepcopy(op0)
+
+                def run_slp(B):
+                    return eao.stoch_lin_prog.make_slp(copy.deepcopy(data), B.portfolio(st["obj"]), B.grid(gid),
+                                                      specs.mat(st["start_future"]), [B.prices(p) for p in st["prices"]])
                 ok = False
                 try:
-                    eao.stoch_lin_prog.make_slp(copy.deepcopy(rec["op"]), self.B.portfolio(st["obj"]), self.B.grid(gid),
-                                                specs.mat(st["start_future"]), [self.B.prices(p) for p in st["prices"]])
-                    ok = True
+                    s_ = self.judged(i, st, run_slp, run_slp, gid)
+                    ok = s_.exc is None
+                    if s_.exc is not None:
+                        self.count_fault_from_exc(s_.exc)
+                    self.stats["calls"] -= 1      # (counted once, below)
                 finally:
                     # make_slp sets the grid's restricted part itself and re-runs the portfolio's cost set-up
                     M.touch(st["obj"], gid, ok)
                     M.slp_grid.add(gid)
+                return
             elif op == "g.restrict":
                 g = self.B.grid(st["grid"])
                 g.set_restricted_grid(specs.mat(st.get("start")), specs.mat(st.get("end")))
